@@ -9,7 +9,7 @@ use crate::common::{draw_strategy, file_violation, run_loop, Acc, Args};
 use crate::drive::stamp;
 use crate::json::J;
 use crate::lin::{self, Ev, POp, Pool, Verdict};
-use crate::payload::{Payload, Tok};
+use crate::payload::{DTok, Payload, Tok};
 use crate::sched::{self, mix, Body, Lane, Outcome, Rng, RunCfg};
 use reactive_mutiny::prelude::advanced::{AllocatorAtomicArray, AllocatorFullSyncArray, BoundedOgreAllocator};
 use reactive_mutiny::verif as rv;
@@ -25,29 +25,47 @@ pub trait PoolA: Send + Sync {
     fn id_of(&self, addr: usize) -> u32;
     fn slot_size(&self) -> usize;
 }
-struct P<A: BoundedOgreAllocator<Tok> + Send + Sync, const N: usize>(A);
-impl<A: BoundedOgreAllocator<Tok> + Send + Sync, const N: usize> PoolA for P<A, N> {
+struct P<T: Payload, A: BoundedOgreAllocator<T> + Send + Sync, const N: usize>(A, std::marker::PhantomData<T>);
+impl<T: Payload, A: BoundedOgreAllocator<T> + Send + Sync, const N: usize> PoolA for P<T, A, N> {
     fn n(&self) -> u32 { N as u32 }
     fn alloc(&self, with_setter: bool, tag: u64) -> Option<(usize, u32)> {
-        if with_setter { self.0.alloc_with(|s| unsafe { std::ptr::write(s, Tok::make(tag)) }).map(|(r, id)| (r as *mut Tok as usize, id)) }
-        else { self.0.alloc_ref().map(|(r, id)| { unsafe { std::ptr::write(r, Tok::make(tag)) }; (r as *mut Tok as usize, id) }) }
+        if with_setter { self.0.alloc_with(|s| unsafe { std::ptr::write(s, T::make(tag)) }).map(|(r, id)| (r as *mut T as usize, id)) }
+        else { self.0.alloc_ref().map(|(r, id)| { unsafe { std::ptr::write(r, T::make(tag)) }; (r as *mut T as usize, id) }) }
     }
-    fn dealloc(&self, id: u32, by_ref: bool) { if by_ref { let r: &Tok = self.0.ref_from_id(id); self.0.dealloc_ref(r) } else { self.0.dealloc_id(id) } }
-    fn read_tag(&self, id: u32) -> u64 { let t: &Tok = self.0.ref_from_id(id); if t.valid() { t.id() } else { u64::MAX } }
-    fn addr_of(&self, id: u32) -> usize { self.0.ref_from_id(id) as *mut Tok as usize }
-    fn id_of(&self, addr: usize) -> u32 { self.0.id_from_ref(unsafe { &*(addr as *const Tok) }) }
-    fn slot_size(&self) -> usize { std::mem::size_of::<Tok>() }
+    fn dealloc(&self, id: u32, by_ref: bool) { if by_ref { let r: &T = self.0.ref_from_id(id); self.0.dealloc_ref(r) } else { self.0.dealloc_id(id) } }
+    fn read_tag(&self, id: u32) -> u64 { let t: &T = self.0.ref_from_id(id); if t.valid() { t.id() } else { u64::MAX } }
+    fn addr_of(&self, id: u32) -> usize { self.0.ref_from_id(id) as *mut T as usize }
+    fn id_of(&self, addr: usize) -> u32 { self.0.id_from_ref(unsafe { &*(addr as *const T) }) }
+    fn slot_size(&self) -> usize { std::mem::size_of::<T>() }
+}
+fn mk<T: Payload, A: BoundedOgreAllocator<T> + Send + Sync + 'static, const N: usize>() -> Arc<dyn PoolA> { Arc::new(P::<T, A, N>(BoundedOgreAllocator::new(), std::marker::PhantomData)) }
+
+/// runs `f` the way a failing task runs its clean-up: from a destructor, while the thread unwinds from a panic (raised without the panic hook, caught right here)
+pub fn during_unwind<R>(f: impl FnOnce() -> R) -> R {
+    struct D<F: FnOnce()>(Option<F>);
+    impl<F: FnOnce()> Drop for D<F> { fn drop(&mut self) { if let Some(f) = self.0.take() { f() } } }
+    let mut out = None;
+    let _ = std::panic::catch_unwind(std::panic::AssertUnwindSafe(|| { let _d = D(Some(|| out = Some(f()))); std::panic::resume_unwind(Box::new("the task failed")) }));
+    out.expect("the clean-up ran")
 }
 
-pub fn make_pool(ring: &str, n: usize, origin: Option<u32>) -> Arc<dyn PoolA> {
+pub fn make_pool(ring: &str, n: usize, origin: Option<u32>) -> Arc<dyn PoolA> { make_pool_of(ring, n, origin, false) }
+/// `droppy`: the pooled values have a destructor (which the deallocation runs)
+pub fn make_pool_of(ring: &str, n: usize, origin: Option<u32>, droppy: bool) -> Arc<dyn PoolA> {
     rv::set_sequence_origin(origin);
-    let p: Arc<dyn PoolA> = match (ring, n) {
-        ("atomic", 2) => Arc::new(P::<AllocatorAtomicArray<Tok, 2>, 2>(BoundedOgreAllocator::new())),
-        ("atomic", 4) => Arc::new(P::<AllocatorAtomicArray<Tok, 4>, 4>(BoundedOgreAllocator::new())),
-        ("atomic", 8) => Arc::new(P::<AllocatorAtomicArray<Tok, 8>, 8>(BoundedOgreAllocator::new())),
-        ("full_sync", 2) => Arc::new(P::<AllocatorFullSyncArray<Tok, 2>, 2>(BoundedOgreAllocator::new())),
-        ("full_sync", 4) => Arc::new(P::<AllocatorFullSyncArray<Tok, 4>, 4>(BoundedOgreAllocator::new())),
-        ("full_sync", 8) => Arc::new(P::<AllocatorFullSyncArray<Tok, 8>, 8>(BoundedOgreAllocator::new())),
+    let p: Arc<dyn PoolA> = match (ring, n, droppy) {
+        ("atomic", 2, false) => mk::<Tok, AllocatorAtomicArray<Tok, 2>, 2>(),
+        ("atomic", 4, false) => mk::<Tok, AllocatorAtomicArray<Tok, 4>, 4>(),
+        ("atomic", 8, false) => mk::<Tok, AllocatorAtomicArray<Tok, 8>, 8>(),
+        ("full_sync", 2, false) => mk::<Tok, AllocatorFullSyncArray<Tok, 2>, 2>(),
+        ("full_sync", 4, false) => mk::<Tok, AllocatorFullSyncArray<Tok, 4>, 4>(),
+        ("full_sync", 8, false) => mk::<Tok, AllocatorFullSyncArray<Tok, 8>, 8>(),
+        ("atomic", 2, true) => mk::<DTok, AllocatorAtomicArray<DTok, 2>, 2>(),
+        ("atomic", 4, true) => mk::<DTok, AllocatorAtomicArray<DTok, 4>, 4>(),
+        ("atomic", 8, true) => mk::<DTok, AllocatorAtomicArray<DTok, 8>, 8>(),
+        ("full_sync", 2, true) => mk::<DTok, AllocatorFullSyncArray<DTok, 2>, 2>(),
+        ("full_sync", 4, true) => mk::<DTok, AllocatorFullSyncArray<DTok, 4>, 4>(),
+        ("full_sync", 8, true) => mk::<DTok, AllocatorFullSyncArray<DTok, 8>, 8>(),
         _ => panic!("no such pool"),
     };
     rv::set_sequence_origin(None);
@@ -55,14 +73,18 @@ pub fn make_pool(ring: &str, n: usize, origin: Option<u32>) -> Arc<dyn PoolA> {
 }
 
 #[derive(Clone, Copy, Debug, PartialEq, Eq)]
-pub enum Step { Alloc { with: bool }, DeallocOldest { by_ref: bool }, DeallocNewest { by_ref: bool }, AllocUntilNone, DeallocAll }
+pub enum Step { Alloc { with: bool, uw: bool }, DeallocOldest { by_ref: bool, uw: bool }, DeallocNewest { by_ref: bool, uw: bool }, AllocUntilNone, DeallocAll }
 
 #[derive(Clone, Debug)]
-pub struct Cfg { pub ring: &'static str, pub n: usize, pub origin: Option<u32>, pub scripts: Vec<Vec<Step>>, pub long: u32 }
+pub struct Cfg { pub ring: &'static str, pub n: usize, pub origin: Option<u32>, pub scripts: Vec<Vec<Step>>, pub long: u32,
+    /// the pooled values have a destructor
+    pub droppy: bool,
+    /// some operations (`uw` in the scripts; 1 in 8 of the long workload's) are issued from a destructor that runs while the thread unwinds from a panic
+    pub unwinding: bool }
 impl Cfg {
     pub fn json(&self) -> J {
         J::obj().with("free_list", J::s(self.ring)).with("POOL_SIZE", J::i(self.n as i64)).with("sequence_origin", self.origin.map(|o| J::i(o as i64)).unwrap_or(J::Null))
-            .with("scripts", J::Arr(self.scripts.iter().map(|s| J::s(format!("{:?}", s))).collect())).with("long_ops_per_thread", J::i(self.long as i64))
+            .with("scripts", J::Arr(self.scripts.iter().map(|s| J::s(format!("{:?}", s))).collect())).with("long_ops_per_thread", J::i(self.long as i64)).with("values_with_destructor", J::Bool(self.droppy)).with("some_operations_issued_while_the_thread_unwinds_from_a_panic", J::Bool(self.unwinding))
     }
 }
 
@@ -79,15 +101,18 @@ pub fn draw_cfg(rng: &mut Rng, only: Option<&str>, lane: Lane, long: bool) -> Cf
     let n = *rng.pick(&[2usize, 4, 8]);
     let nthreads = if long { 2 + rng.below(7) as usize } else { 2 + rng.below(3) as usize };
     let mut scripts = Vec::new();
+    let droppy = rng.chance(1, 3);
+    let unwinding = rng.chance(1, 4);
+    let uw = |rng: &mut Rng| unwinding && rng.chance(1, 3);
     for _ in 0..nthreads {
         let mut s = Vec::new();
         if !long {
             if rng.chance(1, 5) { s.push(Step::AllocUntilNone); s.push(Step::DeallocAll); if rng.chance(1, 2) { s.push(Step::AllocUntilNone) } }
-            else { for _ in 0..2 + rng.below(6) { s.push(match rng.below(10) { 0..=5 => Step::Alloc { with: rng.chance(1, 2) }, 6..=7 => Step::DeallocOldest { by_ref: rng.chance(1, 2) }, _ => Step::DeallocNewest { by_ref: rng.chance(1, 2) } }) } }
+            else { for _ in 0..2 + rng.below(6) { s.push(match rng.below(10) { 0..=5 => Step::Alloc { with: rng.chance(1, 2), uw: uw(rng) }, 6..=7 => Step::DeallocOldest { by_ref: rng.chance(1, 2), uw: uw(rng) }, _ => Step::DeallocNewest { by_ref: rng.chance(1, 2), uw: uw(rng) } }) } }
         }
         scripts.push(s);
     }
-    Cfg { ring, n, origin: draw_origin(rng, n), scripts, long: if !long { 0 } else if lane == Lane::Ser { 50 + rng.below(300) as u32 } else { 20_000 + rng.below(80_000) as u32 } }
+    Cfg { ring, n, origin: draw_origin(rng, n), scripts, droppy, unwinding, long: if !long { 0 } else if lane == Lane::Ser { 50 + rng.below(300) as u32 } else { 20_000 + rng.below(80_000) as u32 } }
 }
 
 struct Mon { owners: Vec<AtomicU32>, problems: Mutex<Vec<(String, String)>>, allocs: AtomicU64, nones: AtomicU64, base: usize }
@@ -115,60 +140,65 @@ impl Mon {
 
 type Hist = Arc<Mutex<Vec<Ev<POp>>>>;
 
-fn body(pool: Arc<dyn PoolA>, mon: Arc<Mon>, script: Vec<Step>, long: u32, tid: u32, seed: u64, hist: Hist) -> Body {
+fn body(pool: Arc<dyn PoolA>, mon: Arc<Mon>, script: Vec<Step>, long: u32, tid: u32, seed: u64, hist: Hist, unwinding: bool) -> Body {
     Box::new(move || {
         let me = tid + 1;
         let mut local: Vec<Ev<POp>> = Vec::new();
         let mut held: Vec<(u32, u64)> = Vec::new();
         let mut k = 0u64;
         let record = long == 0;
-        let alloc = |with: bool, held: &mut Vec<(u32, u64)>, local: &mut Vec<Ev<POp>>, k: &mut u64| -> bool {
+        let alloc = |with: bool, uw: bool, held: &mut Vec<(u32, u64)>, local: &mut Vec<Ev<POp>>, k: &mut u64| -> bool {
             *k += 1; let tag = ((me as u64) << 32) | *k;
-            let c = stamp(); let r = pool.alloc(with, tag); let rt = stamp();
+            let c = stamp(); let r = if uw { during_unwind(|| pool.alloc(with, tag)) } else { pool.alloc(with, tag) }; let rt = stamp();
             match r {
                 Some((addr, id)) => { if mon.acquired(&*pool, me, addr, id) { held.push((id, tag)) } if record { local.push(Ev { thread: tid, call: c, ret: rt, op: POp::Alloc(id) }) } sched::op_done(); true }
                 None => { mon.nones.fetch_add(1, SeqCst); if record { local.push(Ev { thread: tid, call: c, ret: rt, op: POp::AllocNone { slack: 0 } }) } sched::op_done(); false }
             }
         };
-        let dealloc = |idx: usize, by_ref: bool, held: &mut Vec<(u32, u64)>, local: &mut Vec<Ev<POp>>| {
+        let dealloc = |idx: usize, by_ref: bool, uw: bool, held: &mut Vec<(u32, u64)>, local: &mut Vec<Ev<POp>>| {
             let (id, tag) = held.remove(idx);
             mon.releasing(&*pool, me, id, tag);
-            let c = stamp(); pool.dealloc(id, by_ref); let rt = stamp();
+            let c = stamp(); if uw { during_unwind(|| pool.dealloc(id, by_ref)) } else { pool.dealloc(id, by_ref) } let rt = stamp();
             if record { local.push(Ev { thread: tid, call: c, ret: rt, op: POp::Dealloc(id) }) }
             sched::op_done();
         };
         for s in script {
             match s {
-                Step::Alloc { with } => { alloc(with, &mut held, &mut local, &mut k); }
-                Step::DeallocOldest { by_ref } => if !held.is_empty() { dealloc(0, by_ref, &mut held, &mut local) },
-                Step::DeallocNewest { by_ref } => if !held.is_empty() { let i = held.len() - 1; dealloc(i, by_ref, &mut held, &mut local) },
-                Step::AllocUntilNone => { let mut g = 0; while alloc(g % 2 == 0, &mut held, &mut local, &mut k) && g < pool.n() + 1 { g += 1 } }   // (bounded: the whole history must stay within the WGL checker's 128 operations)
-                Step::DeallocAll => while !held.is_empty() { dealloc(0, false, &mut held, &mut local) },
+                Step::Alloc { with, uw } => { alloc(with, uw, &mut held, &mut local, &mut k); }
+                Step::DeallocOldest { by_ref, uw } => if !held.is_empty() { dealloc(0, by_ref, uw, &mut held, &mut local) },
+                Step::DeallocNewest { by_ref, uw } => if !held.is_empty() { let i = held.len() - 1; dealloc(i, by_ref, uw, &mut held, &mut local) },
+                Step::AllocUntilNone => { let mut g = 0; while alloc(g % 2 == 0, false, &mut held, &mut local, &mut k) && g < pool.n() + 1 { g += 1 } }   // (bounded: the whole history must stay within the WGL checker's 128 operations)
+                Step::DeallocAll => while !held.is_empty() { dealloc(0, false, false, &mut held, &mut local) },
             }
         }
         if long > 0 {
             let mut rng = Rng::new(seed ^ (tid as u64) << 40);
             for _ in 0..long {
                 let want_alloc = held.is_empty() || (held.len() < 3 && rng.chance(1, 2));
-                if want_alloc { if !alloc(rng.chance(1, 2), &mut held, &mut local, &mut k) { sched::spin() } }
-                else { let i = rng.below(held.len() as u64) as usize; dealloc(i, rng.chance(1, 2), &mut held, &mut local) }
+                let uw = unwinding && rng.chance(1, 8);
+                if want_alloc { if !alloc(rng.chance(1, 2), uw, &mut held, &mut local, &mut k) { sched::spin() } }
+                else { let i = rng.below(held.len() as u64) as usize; dealloc(i, rng.chance(1, 2), uw, &mut held, &mut local) }
             }
         }
-        while !held.is_empty() { dealloc(0, false, &mut held, &mut local) }
+        while !held.is_empty() { dealloc(0, false, false, &mut held, &mut local) }
         hist.lock().unwrap().extend(local);
     })
 }
 
 pub fn one_run(cfg: &Cfg, rc: &RunCfg, acc: &mut Acc) -> (Option<J>, u64, bool) {
-    let pool = make_pool(cfg.ring, cfg.n, cfg.origin);
+    let pool = make_pool_of(cfg.ring, cfg.n, cfg.origin, cfg.droppy);
+    if cfg.droppy { crate::payload::tracker().reset(0); acc.count("runs_with_values_that_have_a_destructor", 1) }
+    if cfg.unwinding { acc.count("runs_with_operations_issued_while_the_thread_unwinds_from_a_panic", 1) }
     let mon = Arc::new(Mon { owners: (0..cfg.n).map(|_| AtomicU32::new(0)).collect(), problems: Mutex::new(Vec::new()), allocs: AtomicU64::new(0), nones: AtomicU64::new(0), base: pool.addr_of(0) });
     let hist: Hist = Arc::new(Mutex::new(Vec::new()));
-    let bodies: Vec<Body> = cfg.scripts.iter().enumerate().map(|(t, s)| body(pool.clone(), mon.clone(), s.clone(), cfg.long, t as u32, rc.seed, hist.clone())).collect();
+    let bodies: Vec<Body> = cfg.scripts.iter().enumerate().map(|(t, s)| body(pool.clone(), mon.clone(), s.clone(), cfg.long, t as u32, rc.seed, hist.clone(), cfg.unwinding)).collect();
     let rep = sched::run(rc, bodies);
     acc.account(&rep);
     if rep.inconclusive() { std::mem::forget(pool); return (None, rep.sched_hash, true) }
     let mut probs: Vec<(String, String)> = mon.problems.lock().unwrap().clone();
     for (t, p) in &rep.panics { probs.push(("panic".into(), format!("thread t{t} panicked: {p}"))) }
+    // values with a destructor: it ran on storage that holds no value, or twice on the same value
+    if cfg.droppy { for p in crate::payload::tracker().take_problems() { probs.push(("destructor".into(), p)) } }
     if let Outcome::Stall { .. } = rep.outcome { probs.push(("stall".into(), format!("run stalled: {}", rep.outcome_json().to_string()))) }
     let mut h = hist.lock().unwrap().clone();
     h.sort_by_key(|e| e.call);
